@@ -28,7 +28,7 @@ class Finding:
 
     @property
     def key(self):
-        return f"{self.rule}|{self.fn}|{self.slot}"
+        return f"{self.rule}|{self.fn}|{self.slot}".replace(" ", "_")
 
     def to_json(self):
         return {"rule": self.rule, "fn": self.fn, "slot": self.slot, "message": self.msg,
